@@ -409,6 +409,26 @@ func (h *Handler) closeConnection(streamID uint64, peerID identity.AgentID, err 
 	}
 }
 
+// ClosePeerConnections closes every connection that was opened on behalf of the
+// given peer. It is called when that peer disconnects: nobody is left to close
+// these tunnels, and their records would otherwise count against the connection
+// limit until the destination closes or goes idle. Returns the number closed.
+func (h *Handler) ClosePeerConnections(peerID identity.AgentID) int {
+	h.mu.RLock()
+	var ids []uint64
+	for id, ac := range h.connections {
+		if ac.RemoteID == peerID {
+			ids = append(ids, id)
+		}
+	}
+	h.mu.RUnlock()
+
+	for _, id := range ids {
+		h.closeConnection(id, peerID, nil)
+	}
+	return len(ids)
+}
+
 // removeConnection removes a connection from tracking.
 func (h *Handler) removeConnection(streamID uint64) *ActiveConnection {
 	h.mu.Lock()
